@@ -10,6 +10,18 @@ claimed = {
  "C06": ("fault_enumeration", "§5 C06", "the real WAL Writer produces seeded logs under the simulator; every truncation offset and dense single-byte corruptions of every file are fed to the real Reader/Recovery; oracle: returned entries are an in-order subsequence of the appended entries (with database), complete entries before a truncation point are all returned, nothing altered or fabricated, no panic"),
  "C08": ("fault_enumeration", "§5 C08", "seeded sequences of LocalBackend operations with adversarial keys routed through the real validators; the complete single-fault space (each mutating fs op x crash-before/after, torn write, EIO, ENOSPC) of each sequence is executed; oracle: every fs operation stays inside the root, every non-staging file holds the complete content of some write"),
  "C13": ("exploration", "§5 C13", "seeded source trees backed up and restored by the real backup.Manager under seeded file-system faults, remote-backend style failures, a concurrent deleter and process death; oracle: restore of a completed backup is byte-identical or does not report success; skipped files are recorded in the manifest"),
+ "C12": ("fault_enumeration", "§5 C12", "seeded tier-migration cases on the real Manager/Migrator/MetadataStore with two LocalBackends; per case every mutating storage/metadata step of the first cycle is a crash point (capped, strided), plus step failures (fs errors, SQLITE_BUSY), restarts and reconciliation; oracle: every file complete in some tier at every instant, and after a fault-free cycle the real query-layer read expression sees each row exactly once"),
+ "C20": ("exploration", "§5 C20", "seeded histories of token/org/team/role/permission/membership changes and checks (single, batched, middleware) on the real AuthManager/RBACManager over SQLite, direct and cluster-apply mode, tiny caches, clock advances, raced mutations; oracle: each check equals a cache-free evaluation of the real policy code on the same SQLite state, cross-checked by an independent evaluator"),
+ "C21": ("exploration", "§5 C21", "one mutator (revoke/delete/rotate/expire) against 1-4 verifier tasks on one token under seeded schedules with a scheduler-visible single DB connection; oracle: no verification invoked after the mutation returned (or after expiry) succeeds with the old value"),
+ "C22": ("exploration", "§5 C22", "seeded committed logs of all 29 command types (valid, invalid, duplicate, conflicting, batches) applied to the real ClusterFSM; snapshot/restore at every prefix, suffix replay, lagging/crashing replicas, seeded map order; oracle: equal state at equal index, restore(snapshot(s)) = s, indexes agree with primaries, batches all-or-nothing"),
+ "C23": ("exploration", "§5 C23", "same command logs; every reachable and every restored state is judged: at most one primary, the named primary exists and is marked, re-AddNode keeps the recorded role, RBAC records have existing parents"),
+ "C24": ("exploration", "§5 C24", "1-16 producer tasks appending through the real wal.Writer hook -> Sender -> wire -> Receiver with the real handshake; passive wire (schedules only) and adversarial wire (frame drop/dup/reorder/flip/truncate/replay/splice/inject, resets, half-open, stalls) as separate configurations; oracle: applied entries are exactly the queued ones, once, in order; passive: no disconnects or unreported losses"),
+ "C25": ("exploration", "§5 C25", "real Puller + FetchClient against a scripted peer over an in-memory connection with per-attempt faults (dial failure, error acks, truncation/corruption at any byte, lying acks), leftover .part files and replica crashes; oracle: final path absent or byte-identical at every fs mutation, counters/catch-up gate never claim a missing file, convergence after faults stop"),
+ "C26": ("exploration", "§5 C26", "signed requests of all five nonce-protected message types delivered and re-delivered to the real handlers at seeded clock positions around the tolerance window and the nonce retention (read from the construction sites), concurrent duplicates, clock steps; oracle: at most one accept per (sender, nonce), reject outside the window"),
+ "C27": ("exploration", "§5 C27", "real spoke Agent/Ledger and hub Receiver/Reconciler/HubIndex joined by a fault-injecting transport (lost acks, lingering requests, short/corrupt bodies, back-pressure, collisions), spoke crashes, hub fs faults, hub/spoke compaction and removals; oracle: hub never exposes wrong bytes or stores a file twice, synced only when the hub holds identical content, documented ledger transitions, terminal states after faults stop"),
+ "C28": ("exploration", "§5 C28", "arrival sequences aligned to slot/minute/hour/UTC-day boundaries, concurrent requests, policy changes and wall-clock steps through the real query route's governance block; oracle over admit intervals: no window of the configured length holds more admits than the limit, quotas per clock hour/UTC day, rate-limited requests consume no quota, limit changes apply to the next request"),
+ "C29": ("exploration", "§5 C29", "real ContinuousQueryHandler + CQScheduler + DuckDB + ArrowBuffer driven through the HTTP routes under the sim clock with manual/scheduled/concurrent executions, failing SQL, storage outages, restarts, crashes and clock steps; oracle over the handler's own execution history and the destination rows: contiguous non-overlapping windows, failures do not advance, rows labelled with the window start"),
+ "C30": ("exploration", "§5 C30", "clusters of 1-4 nodes with real Routers/Registries/handlers, every role/state/health/belief combination, client-supplied forwarding headers, delayed/refused/lost forwards and health flapping; oracle: hop count <= 1, only capable nodes process locally, capable receivers serve locally"),
 }
 na = {
  "C01": "pure function of the request bytes (line-protocol parsing/escaping): no schedule, clock, fault or interleaving to simulate",
